@@ -77,7 +77,7 @@ fn boundary_sweep(ctx: &Ctx, rep: &mut Report, fmt: Fmt) {
         Vec::new()
     };
     let total = if fmt == Fmt::F32 { Fmt::F32.inf_bits() } else { fracs.len() as u64 * 2047 }; // x in [0, inf): boundary above x
-    let stride: u64 = match (ctx.tier, fmt) {
+    let stride: u64 = match (ctx.sweep_tier(), fmt) {
         (Tier::Quick, Fmt::F32) => 512,
         (Tier::Quick, Fmt::F64) => 16,
         (Tier::Thorough, _) => 1,
